@@ -20,6 +20,64 @@ pub struct GridOut {
     pub extra: J,
 }
 
+/// Per-case watchdog. A case normally takes milliseconds; a case that is still running after
+/// `CASE_LIMIT_SECS` means a call into the subject does not return (e.g. a debt-driven collector call
+/// looping for ever). The watchdog then writes the result file with that case as the violation and
+/// ends the process with exit code 1, so that a hang becomes a verdict with a replayable case instead
+/// of a check that never finishes.
+pub const CASE_LIMIT_SECS: u64 = 90;
+pub struct Watch {
+    /// per worker: (case index + 1, start in ms since `t0`); 0 = idle
+    slots: Vec<(std::sync::atomic::AtomicUsize, std::sync::atomic::AtomicU64)>,
+    t0: std::time::Instant,
+}
+impl Watch {
+    pub fn begin(&self, worker: usize, case: usize) {
+        use std::sync::atomic::Ordering::SeqCst;
+        self.slots[worker].1.store(self.t0.elapsed().as_millis() as u64, SeqCst);
+        self.slots[worker].0.store(case + 1, SeqCst);
+    }
+    pub fn end(&self, worker: usize) {
+        self.slots[worker].0.store(0, std::sync::atomic::Ordering::SeqCst);
+    }
+}
+static OUT_PATH: std::sync::OnceLock<String> = std::sync::OnceLock::new();
+static GRID_NAME: std::sync::OnceLock<String> = std::sync::OnceLock::new();
+pub fn watchdog(workers: usize, total: usize, name_of: Box<dyn Fn(usize) -> String + Send>) -> std::sync::Arc<Watch> {
+    use std::sync::atomic::Ordering::SeqCst;
+    let w = std::sync::Arc::new(Watch { slots: (0..workers).map(|_| Default::default()).collect(), t0: std::time::Instant::now() });
+    let w2 = w.clone();
+    std::thread::spawn(move || {
+        loop {
+            std::thread::sleep(std::time::Duration::from_millis(500));
+            let now = w2.t0.elapsed().as_millis() as u64;
+            for s in &w2.slots {
+                let c = s.0.load(SeqCst);
+                if c != 0 && now.saturating_sub(s.1.load(SeqCst)) > CASE_LIMIT_SECS * 1000 && s.0.load(SeqCst) == c {
+                    let name = name_of(c - 1);
+                    let msg = format!("the case did not finish within {CASE_LIMIT_SECS} s (a case takes milliseconds): a call into the library does not return");
+                    let which = GRID_NAME.get().cloned().unwrap_or_default();
+                    let j = J::obj()
+                        .with("grid", which.as_str())
+                        .with("evaluations", total as u64)
+                        .with("distinct_nontrivial", 0u64)
+                        .with("rule", "interrupted by the per-case watchdog")
+                        .with("samples", J::Arr(vec![J::Str(name.clone())]))
+                        .with("violations", J::Arr(vec![J::obj().with("case", name.as_str()).with("message", msg.as_str())]))
+                        .with("violation_count", 1u64)
+                        .with("extra", J::obj().with("exhaustive", false).with("watchdog", true))
+                        .with("wall_s", w2.t0.elapsed().as_secs_f64());
+                    let path = OUT_PATH.get().cloned().unwrap_or_else(|| "/dev/stdout".into());
+                    let _ = std::fs::write(&path, j.dump());
+                    eprintln!("[{which}] watchdog: case {name} {msg}");
+                    std::process::exit(1);
+                }
+            }
+        }
+    });
+    w
+}
+
 pub fn arg(args: &[String], k: &str) -> Option<String> {
     args.iter().position(|a| a == k).and_then(|i| args.get(i + 1).cloned())
 }
@@ -35,6 +93,8 @@ fn main() {
     let which = args.get(1).cloned().unwrap_or_default();
     let thorough = arg(&args, "--tier").as_deref() == Some("thorough");
     let only = arg(&args, "--only");
+    let _ = OUT_PATH.set(arg(&args, "--out").unwrap_or_else(|| "/dev/stdout".into()));
+    let _ = GRID_NAME.set(which.clone());
     let t0 = std::time::Instant::now();
     let out = match which.as_str() {
         "c09" => c09::run(thorough, only.as_deref()),
